@@ -49,12 +49,19 @@ class Unit:
         self.label = label
 
     # --- abstraction --------------------------------------------------------------------
+    def _ax(self):
+        c = concrete(self.sid)
+        if isinstance(c, int) and c in _CONCRETE:
+            _assert_concrete(c)
+
     @property
     def scale(self):
+        self._ax()
         return SV(SCALE(self.sid.t), "r")
 
     @property
     def dims(self):
+        self._ax()
         return [SV(d(self.sid.t), "r") for d in DIM]
 
     def same_dim(self, other):
